@@ -502,7 +502,8 @@ def run(ctx):
     from ..report import Ctx as _LCtx
     from . import c05 as _lsrc
     _sub = _LCtx('C05', 'quick', ctx.src, 0)
-    _lsrc.run(_sub)
+    from ..report import run_lifted as _run_lifted
+    _run_lifted(ctx, _lsrc, _sub)
     _lifted = [f for f in _sub.findings if f.rule == 'C05.R7']
     for f in _lifted:
         ctx.fail('C06.R8', f.key, f.site, f.message)
@@ -513,7 +514,8 @@ def run(ctx):
     from ..report import Ctx as _LCtx_C06_R9
     from . import c01 as _lsrc_C06_R9
     _sub_C06_R9 = _LCtx_C06_R9('C01', 'quick', ctx.src, 0)
-    _lsrc_C06_R9.run(_sub_C06_R9)
+    from ..report import run_lifted as _run_lifted
+    _run_lifted(ctx, _lsrc_C06_R9, _sub_C06_R9)
     _lifted_C06_R9 = [f for f in _sub_C06_R9.findings if f.rule in ('C01.R1', 'C01.R2') and any(x in f.key for x in ('Encrypt', 'Decrypt', 'Sign', 'MAC', 'DeriveKey'))]
     for f in _lifted_C06_R9:
         ctx.fail('C06.R9', f.key, f.site, f.message)
